@@ -15,6 +15,23 @@ SHIM = ['-include', 'harness/shim/detsched.h', '-DNDEBUG']
 HARNESSES = [Harness('d_c11', ['harness/d_c11.cc'], flags=SHIM, includes=('api/include', 'sdk/include'),
                      plain_srcs=['harness/shim/detsched.cc'])]
 H = 'd_c11'
+import importlib, os
+SUBS = [importlib.import_module('props.' + n) for n in ('c11_mem',) if os.path.exists(os.path.join(os.path.dirname(__file__), n + '.py'))]
+for _m in SUBS:
+    LEAN_TARGETS = LEAN_TARGETS + list(_m.LEAN_TARGETS)
+    THEOREMS = THEOREMS + list(_m.THEOREMS)
+    HARNESSES = HARNESSES + [h for h in _m.HARNESSES if h.name not in {x.name for x in HARNESSES}]
+    GEN = GEN + [g for g in (_m.GEN or []) if g not in GEN]
+
+
+def _sub(case):
+    w = case.line.split()[0] if case.line.split() else ''
+    for m in SUBS:
+        if w in m.WORDS:
+            return m
+    return None
+
+
 ENGINE = 'lean-proof + deterministic-scheduler correspondence (Engine D)'
 RULE = ('schedules (one action = one atomic access of one thread of the UNMODIFIED circular_buffer.h / spin_lock_mutex.h '
         'under the token-renaming scheduler shim): preemption-bounded exhaustive block schedules on the smallest '
@@ -37,7 +54,7 @@ def corpus():
         out.append(Case(f'ring 3 2 2m 1 0{em} ; ' + ' ; '.join(['p0'] * 12 + ['p1'] * 12), H, ('corpus', 'end-' + em), 'corpus'))
         out.append(Case(f'ring 2 1 1 1 1{em} ; ' + ' ; '.join(['p0'] * 8 + ['c'] * 10), H, ('corpus', 'end-' + em + '-empty'), 'corpus'))
     out.append(Case('spin LT TL L ; t0 ; t1 ; t0 ; t0 ; t1 ; t1 ; t1 ; t2 ; t2 ; t2 ; t2 ; t0 ; t0 ; t1', H, ('corpus', 'spin'), 'corpus'))
-    return out
+    return out + [c for m in SUBS for c in m.corpus()]
 
 
 def block_schedules(nthreads, nblocks, lens):
@@ -134,7 +151,7 @@ def generate(rng, tier):
                             H, ('spin', 'handover-around-yield')))
     # a waiter that goes all the way through the fast loop, yield and sleep while the lock is held
     out.append(Case('spin L L ; t0 ; t0 ; t0 ; t1 ; t1 ; ' + ' ; '.join(['t1'] * 230) + ' ; t0 ; t0 ; t1 ; t1 ; t1 ; t1', H, ('spin', 'long-wait')))
-    return out
+    return out + [c for m in SUBS for c in m.generate(rng, tier)]
 
 
 def segments(case, out):
@@ -291,6 +308,9 @@ def oracle_spin(case, out):
 
 
 def oracle(case, out):
+    m = _sub(case)
+    if m:
+        return m.oracle(case, out)                     # the sub-check has its own malformed stream
     if out.startswith('CRASH'):
         return ('no-crash-no-double-free', out)
     if out == 'bad-op':
@@ -300,11 +320,27 @@ def oracle(case, out):
     return oracle_spin(case, out)
 
 
+def model_line(case, out):
+    m = _sub(case)
+    return m.model_line(case, out) if m and hasattr(m, 'model_line') else case.line
+
+
+def agree(case, out, mout):
+    m = _sub(case)
+    return m.agree(case, out, mout) if m and hasattr(m, 'agree') else out == mout
+
+
 def signature(case, out, clause):
+    m = _sub(case)
+    if m and hasattr(m, 'signature'):
+        return m.signature(case, out, clause)
     return clause
 
 
 def nontrivial(case, out):
+    m = _sub(case)
+    if m and hasattr(m, 'nontrivial'):
+        return m.nontrivial(case, out)
     toks = ' '.join(case.line.split()[1:]).split(' ; ')[1:]
     return len({t.rstrip('!') for t in toks}) >= 2
 
@@ -323,3 +359,7 @@ LEVEL_NOTE = ('Trusted: Lean kernel (axioms propext, Classical.choice, Quot.soun
               'orders are not modelled (SC only); starvation-freedom of the spin lock is not claimed (solo progress only); '
               '64-bit counter wrap-around.')
 DESIGN_REF = 'DESIGN.md section 4, C11; Appendix A'
+for _m in SUBS:
+    RULE = RULE + ' | ' + getattr(_m, 'RULE', '')
+    LEVEL_TEXT = LEVEL_TEXT + getattr(_m, 'LEVEL_TEXT_ADD', '')
+    LEVEL_NOTE = LEVEL_NOTE + getattr(_m, 'LEVEL_NOTE_ADD', '')
